@@ -46,6 +46,10 @@ pub fn run(run: &'static Run) {
     let thorough = !run.quick();
     let schemes: Vec<&str> = vec!["ssh://", "git://", "http://", "https://", "file://", "foo://", "SSH://", "ssh+git://"];
     let mut users: Vec<&str> = vec!["", "u@", "u%40@", "-u@", "u:pw@", "u:@", ":pw@", "@"];
+    // percent-escapes of the userinfo delimiters (and of '%' itself, and a literal '%') in user and password
+    users.extend([
+        "a%2Fb@", "dom%2Fu@", "%3A@", "u%3Av@", "u%25@", "u%2540@", "u%@", "%40@", "%2F:%3A@", "u:%2F@", "u:to%2Fk%3Aen@", "u:%3Apw@", "u:p%40w@", "u:100%2540@", "u:%25@", "u:p%w@", "a%2Fb:c%40d@",
+    ]);
     let mut hosts: Vec<&str> = vec!["h", "[::1]", "-h", "", "H.example", "h."];
     // every scheme's default port (ssh 22, git 9418, http 80, https 443) with both neighbours, the extremes, and an empty port
     let mut ports: Vec<&str> = vec!["", ":0", ":21", ":22", ":23", ":79", ":80", ":81", ":442", ":443", ":444", ":9417", ":9418", ":9419", ":65535", ":"];
